@@ -90,7 +90,9 @@ class Base(probe.Contract):
         for s in st['snaps']:
             if s is None or s.obj is st['target']:
                 continue
-            d = s.diff()
+            bit, d = s.semantic_diff()
+            if bit is not None and d is None:
+                c.events['argument_gauge_changed_only:' + self.api] += 1
             c.check(self.api, 'argument_unchanged', d is None, shape_tags_snap(s) if d is not None else (), {'diff': d, 'shape': s.shape_sig()} if d else None,
                     prop='C06')
 
